@@ -13,6 +13,11 @@ def cfgInt (c : Case) (k : String) (d : Int) : Int :=
   | some [_, v] => (parseInt v).getD d
   | _ => d
 
+def cfgStr (c : Case) (k : String) (d : String) : String :=
+  match c.cfg.find? (fun l => l.head? == some k) with
+  | some [_, v] => v
+  | _ => d
+
 def emLine (e : Emission) : List String :=
   (if e.late then "lemit" else "emit") :: hex e.key :: toString e.start :: toString e.stop :: e.rows.map (fun r => toString r.id)
 
@@ -83,6 +88,38 @@ def acrossGap (w : SWin) (k : Key) (ts : Int) (now : Int) : Bool :=
   | none => w.sessions.any (fun s => s.key == k && decide (ts < s.stop))
   | some h => decide (ts + w.timeout ≤ h.start) ||
               w.sessions.any (fun s => s.key == k && s.park != 0 && decide (ts < s.stop))
+
+/-- SQL-level stage for session windows (in-order input): oracle only, plus the aggregate columns. -/
+def runSql (c : Case) : CaseOut := Id.run do
+  let ms : Int := 1000000
+  let timeout := cfgInt c "timeout" 1000 * ms
+  let mut evs : List SessSpec.Ev := []
+  let mut emits : List SessSpec.Ev := []
+  let mut bad : Option String := none
+  for (op, implObs) in c.ops do
+    match op with
+    | ["row", id, ts, k] =>
+      let t := if ts == "none" then none else (parseInt ts).map (· * ms)
+      evs := evs ++ [SessSpec.Ev.arr ((unhex k).getD []) ((parseNat id).getD 0) t]
+    | ["flush"] =>
+      for l in implObs do
+        match l with
+        | "res" :: ws :: we :: k :: cnt :: sum :: wid :: ids =>
+          let idl := ids.filterMap parseNat
+          if (parseNat cnt).getD 0 != idl.length && bad.isNone then bad := some "count-differs-from-rows-of-the-session"
+          if (parseNat sum).getD 0 != idl.foldl (· + ·) 0 && bad.isNone then bad := some "sum-differs-from-rows-of-the-session"
+          if wid != "t" && bad.isNone then bad := some "window_id-not-start_end"
+          emits := emits ++ [SessSpec.Ev.emit false ((unhex k).getD []) ((parseInt ws).getD 0) ((parseInt we).getD 0) idl]
+        | ["sentinel-lost"] => if bad.isNone then bad := some "sentinel-session-never-delivered"
+        | _ => if bad.isNone then bad := some "unreadable-result-line"
+    | _ => pure ()
+  let scfg : SessSpec.Cfg := { timeout := timeout, ooo := 0, lateness := 0, now := 1700000000000000000 }
+  let spec := match bad with
+    | some b => "fail:" ++ b
+    | none => match SessSpec.holds scfg (evs ++ emits) true with
+      | none => "ok"
+      | some e => "fail:" ++ e
+  return { obs := c.ops.map (fun p => p.2), spec := spec, tags := ["sql-level-oracle-only"] }
 
 def run (c : Case) : CaseOut := Id.run do
   let timeout := cfgInt c "timeout" 1000
